@@ -45,8 +45,7 @@ func (e *Engine) verifyFunc(name, prop string, safety bool) *FuncResult {
 	}
 	st := &State{guard: "true", heap: map[string]string{}}
 	st.alloc = r.ctx.fresh("alloc0", sRef)
-	r.assume(st, "(bvult #x00010000 "+st.alloc+")")
-	r.assume(st, "(bvult "+st.alloc+" #x7fffffff)")
+	r.assume(st, refLt("65536", st.alloc))
 	// parameters
 	for _, p := range fn.Params {
 		v, err := r.freshValue("p."+p.Name(), p.Type())
@@ -68,7 +67,7 @@ func (e *Engine) verifyFunc(name, prop string, safety bool) *FuncResult {
 			return res
 		}
 		ref := r.ctx.fresh("fv."+p.Name(), sRef)
-		r.assume(st, and("(bvult "+ref+" "+st.alloc+")", not(eq(ref, refLit(0)))))
+		r.assume(st, and(refLt("0", ref), refLt(ref, st.alloc)))
 		t := pt.Elem()
 		if isStruct(t) {
 			fr.setVal(p, &Sc{T: ref, K: kRef, W: 32, Ty: p.Type()})
@@ -133,17 +132,40 @@ func (e *Engine) verifyFunc(name, prop string, safety bool) *FuncResult {
 		names["result"] = results[0]
 	}
 	fr.cur = nil
+	// clauses of the form "err == nil && ... ==> ..." are checked against the exit state
+	// restricted to the return sites that can return a nil error
+	var okOut *State
+	var okNames map[string]Value
+	var okErrNames []string
+	if okr, en := fr.okRets(); okr != nil {
+		ores, ost, err := fr.mergeRets(okr)
+		if err == nil {
+			okOut = ost
+			okErrNames = en
+			okNames = map[string]Value{}
+			for i, n := range rn {
+				okNames[n] = ores[i]
+			}
+			if len(ores) == 1 {
+				okNames["result"] = ores[0]
+			}
+		}
+	}
 	if ct != nil {
 		for _, cl := range ct.Ensures {
 			if !r.active(cl.Tags) {
 				continue
 			}
-			g, err := fr.evalBool(cl.E, out, names)
+			useOut, useNames := out, names
+			if okOut != nil && guardedByNilErr(cl.E, okErrNames) {
+				useOut, useNames = okOut, okNames
+			}
+			g, err := fr.evalBool(cl.E, useOut, useNames)
 			if err != nil {
 				res.Err = fmt.Errorf("ensures %s: %v", cl.Label, err)
 				return res
 			}
-			r.addOblig(&Oblig{Name: fname + "#post#" + cl.Label, Kind: "post", Func: fname, Label: cl.Label, Tags: cl.Tags, Text: cl.Text, Guard: out.guard, Goal: g})
+			r.addOblig(&Oblig{Name: fname + "#post#" + cl.Label, Kind: "post", Func: fname, Label: cl.Label, Tags: cl.Tags, Text: cl.Text, Guard: useOut.guard, Goal: g})
 		}
 		for _, cl := range ct.AtCall {
 			if cl.Call != "$return" || !r.active(cl.Tags) {
@@ -188,6 +210,35 @@ func (e *Engine) verifyFunc(name, prop string, safety bool) *FuncResult {
 		o.info = info
 	}
 	return res
+}
+
+// guardedByNilErr: e is  A ==> B  where A has the conjunct  <err> == nil.
+func guardedByNilErr(e Expr, errNames []string) bool {
+	b, ok := e.(*EBin)
+	if !ok || b.Op != "==>" {
+		return false
+	}
+	var conj func(x Expr) bool
+	conj = func(x Expr) bool {
+		if bb, ok := x.(*EBin); ok {
+			if bb.Op == "&&" {
+				return conj(bb.X) || conj(bb.Y)
+			}
+			if bb.Op == "==" {
+				if id, ok := bb.X.(*EIdent); ok {
+					if _, ok := bb.Y.(*ENil); ok {
+						for _, n := range errNames {
+							if n == id.Name {
+								return true
+							}
+						}
+					}
+				}
+			}
+		}
+		return false
+	}
+	return conj(b.X)
 }
 
 var usedByRun = map[*Run]map[string]bool{}
@@ -275,6 +326,17 @@ func (fr *Frame) frameObligations(ct *FuncContract, out *State, fname string) er
 			if x == "*" {
 				skip = true
 			}
+		}
+		// components written only at references allocated by this very run (or re-recorded
+		// by a callee postcondition read, which is a no-op for existing objects) need no proof
+		onlyLocal := true
+		for w := range r.heap.all[c] {
+			if !r.allocRefs[w] && w != "$fresh" {
+				onlyLocal = false
+			}
+		}
+		if onlyLocal {
+			skip = true
 		}
 		if skip {
 			continue
